@@ -918,6 +918,9 @@ func main() {
 		// (commitDone) it does not seal; a tree whose commit-timeout site is guarded by endorseDone seals block 3 there
 		"H 4 1 3 P,2,3,0;E,2,3,0;K,2;CT,2;P,0,0,0;P,1,0,0;E,1,0,0;K,1;FE,3,3,0,0,0,3.0;D,4,1;S,1",
 		"H 4 1 3 P,2,3,0;E,2,3,0;K,2;S,2;P,0,0,0;P,1,0,0;E,1,0,0;K,1;FE,3,3,0,0,0,3.0;D,4,1;S,1",
+		// real Servers, no Byzantine peer (/verif/seeded/C34-r3): leader 0's proposal is lost towards node 3, which holds the 2nd
+		// proposer's proposal parked in its msg pool; the commit quorum for proposer 0 must not seal that one (needs ParkProposal)
+		"R 4 1 - 0,1 P,0,0,0;P,1,0,0;P,2,0,0;PP,3,1,0;DX,0;DX,1;DX,2;DX,0;DX,1;DX,2",
 		// the same on real Servers (needs the ledger stub of the hook for timer 4; a no-op with an older hook)
 		"R 4 1 3 0,3 P,2,3,0;T,2,0;T,2,4;P,0,0,0;P,1,0,0;X,3,c,0,0,0,3,1;DO,1,0;X,3,c,0,0,0,3,0",
 		// Props/C34.lean non-vacuity example of the implementation model (three honest nodes seal block 1.0)
